@@ -514,7 +514,7 @@ where
     IsotropicGaussian<F>: Proposal<F, F>,
 {
     let mon = "isotropic";
-    let budget: u64 = if ctx.thorough { 1 << 22 } else { 1 << 20 };
+    let budget: u64 = if ctx.thorough { 1 << 22 } else { 1 << 21 };
     let base = if g.bool() { 0 } else { g.next_u64() };
     let std = F::of(g.log_uniform(1e-3, 1e3));
     let from = vec![F::zero(); 8];
